@@ -90,6 +90,22 @@ class DataBase:
         """
         raise NotImplementedError("Remove Method not overriden")
 
+    def remove_by_id(self, index: int) -> bool:
+        """
+        Remove the data stored under a given index, returns a boolean stating if something has been removed.
+
+        Parameters
+        ----------
+        index : int
+            Index of the data to be removed.
+
+        Returns
+        -------
+        bool
+            Indicates whether removal was successful.
+        """
+        raise NotImplementedError("Remove by id Method not overriden")
+
     def all(self) -> tuple:
         """
         Get all data from the database.
